@@ -7,6 +7,7 @@ from ..consteval import ConstEval, NotConstant
 from ..src import own_nodes, norm
 from ..report import AnalysisError
 from .forwarding import branch_context
+from . import forwarding
 
 
 def fmt_roles(call):
@@ -246,6 +247,12 @@ def run(chk):
     chk.ob('C07-R', 'the parser rejects duplicated characters in MSH-2', ok, '', sp.loc, key='C07-R|parser-dups')
     ok = any(isinstance(n, ast.Call) and norm(n.func) == 'check_encoding_chars' for n in own_nodes(st.node))
     chk.ob('C07-R', 'the setter validates the set before writing MSH-1/MSH-2', ok, '', st.loc, key='C07-R|setter-checks')
+
+    # ---- F
+    chk.rule('C07-F', 'every parser / encoder call that takes encoding_chars receives the caller\'s own set (not a default, not the '
+                      'set of some other object)')
+    nf = forwarding.check_forwarding(chk, c, 'C07-F', ('encoding_chars',), check_own=True)
+    chk.floor('call sites taking encoding_chars', nf, 60)
 
     # ---- I
     elem = ix.cls('core.Element')
